@@ -282,28 +282,38 @@ where
         // this on the trait side, which is a shame.
         <Svc as Handler<Msg>>::Reply: RequestContents + TryIntoBody,
     {
-        let future = self.client.channel.send_parts(metadata, self.headers, body);
+        let channel = &self.client.channel;
+        let headers = self.headers;
 
-        let response = match self.client.timeout {
-            Some(duration) => tokio::time::timeout(duration, future)
+        // The whole exchange is bounded by the timeout, the reply's body included:
+        // the head of a reply can arrive long before the rest of it does.
+        let exchange = async move {
+            let response = channel
+                .send_parts(metadata, headers, body)
                 .await
-                .map_err(|_| Status::timeout())?
-                .map_err(Status::connection)?,
-            None => future.await.map_err(Status::connection)?,
+                .map_err(Status::connection)?;
+
+            let (head, body) = response.into_parts();
+
+            if head.status == StatusCode::OK {
+                return <<Svc as Handler<Msg>>::Reply>::from_body(Body::new(body)).await;
+            }
+
+            let buffer = crate::utils::to_aligned(body)
+                .await
+                .map_err(|e| Status::connection(e.message()))?;
+            let status =
+                DataView::<Status>::using(buffer).map_err(|_| Status::invalid())?;
+            Err(status
+                .deserialize_view()
+                .unwrap_or_else(|_| Status::invalid()))
         };
 
-        let (head, body) = response.into_parts();
-
-        if head.status == StatusCode::OK {
-            return <<Svc as Handler<Msg>>::Reply>::from_body(Body::new(body)).await;
+        match self.client.timeout {
+            Some(duration) => tokio::time::timeout(duration, exchange)
+                .await
+                .map_err(|_| Status::timeout())?,
+            None => exchange.await,
         }
-
-        let buffer = crate::utils::to_aligned(body)
-            .await
-            .map_err(|e| Status::internal(e.message()))?;
-        let status = DataView::<Status>::using(buffer).map_err(|_| Status::invalid())?;
-        Err(status
-            .deserialize_view()
-            .unwrap_or_else(|_| Status::invalid()))
     }
 }
